@@ -902,4 +902,38 @@ theorem rank_after_result (s : State) (p : Nat) (e : Err) (w : Worker) (job : Jo
        · rfl
        · rw [hardCheck_rank]; rfl)
 
+/-! ### the hard deadline is examined on every result -/
+
+theorem emit_ended (s : State) (b : Nat) (v : Verdict) :
+    findB (emit s b v).batches b = none ∧ ∃ v', (b, v') ∈ (emit s b v).verdicts :=
+  ⟨findB_delB_self _ _, v, List.mem_append.mpr (Or.inr (List.mem_singleton.mpr rfl))⟩
+
+theorem hardCheck_ended (s : State) (bn : Nat) (bp : Batch) (pr : Bool) (outs : List Out)
+    (hh : bp.hardPassed = true) :
+    findB (hardCheck s bn bp pr outs).1.batches bn = none ∧
+      ∃ v, (bn, v) ∈ (hardCheck s bn bp pr outs).1.verdicts := by
+  unfold hardCheck
+  rw [if_pos hh]
+  exact emit_ended s bn _
+
+theorem result_ends_overdue_batch (s : State) (p : Nat) (e : Err) (w : Worker) (job : Job) (bp : Batch)
+    (hw : findW s.workers p = some w) (ha : w.active = some job)
+    (hf : findB s.batches ((s.queries.lookup job.idx).getD 0) = some bp) (hh : bp.hardPassed = true) :
+    findB (stepResult s p e).1.batches ((s.queries.lookup job.idx).getD 0) = none ∧
+      ∃ v, ((s.queries.lookup job.idx).getD 0, v) ∈ (stepResult s p e).1.verdicts := by
+  unfold stepResult
+  simp only [hw, ha, hf]
+  cases e
+  · dsimp only
+    split
+    · exact emit_ended _ _ _
+    · exact hardCheck_ended _ _ _ _ _ hh
+  all_goals first
+    | exact emit_ended _ _ _
+    | (dsimp only
+       generalize (if bp.noRetryMax = true then job.tries else job.tries + 1) = tr
+       split
+       · exact emit_ended _ _ _
+       · exact hardCheck_ended _ _ _ _ _ hh)
+
 end Neutrino.Disp
